@@ -209,6 +209,12 @@ def writeForever():
     else:
       # Avoid churning CPU when there are no metrics are in the cache
       time.sleep(1)
+  # The reactor is shutting down (it joins its thread pool, so we still get to
+  # run): write out what was received since the last pass.
+  try:
+    writeCachedDataPoints()
+  except Exception:
+    log.err()
 
 
 def writeTags():
